@@ -37,6 +37,16 @@ def open_fds():
         return set()
 
 
+class Widget(object):
+    """a class that well-behaved clients lend to the server by reference"""
+
+    def __init__(self, tag):
+        self.tag = tag
+
+    def exposed_describe(self):
+        return "widget:%s" % (self.tag,)
+
+
 def make_service(events, slow_disconnect=0.0, slow_init=0.0):
     """service whose instances carry a per-connection token and private state; events records hooks"""
     import rpyc
@@ -80,6 +90,10 @@ def make_service(events, slow_disconnect=0.0, slow_init=0.0):
 
         def exposed_echo(self, x):
             return x
+
+        def exposed_build(self, cls, arg):
+            # the client lends a class; the server calls it (a call back into that client) and reports what it got
+            return cls(arg).describe()
 
         def exposed_table_size(self):
             return len(self.conn._local_objects._dict)
